@@ -17,10 +17,14 @@ package main
 //     executor.isView (`viewSet` events).
 
 import (
+	"fmt"
 	"go/ast"
+	"go/parser"
 	"go/token"
+	"path/filepath"
 	"regexp"
 	"sort"
+	"strconv"
 	"strings"
 )
 
@@ -972,4 +976,462 @@ func hcSQLCheckRules(fns []*HCFunc) (first, pragmas [][2]string) {
 		first = [][2]string{{"sqlcheck_is_readonly_sql not found", "unrecognised"}}
 	}
 	return
+}
+
+// ---------------------------------------------------------------------------------- context slots (round 3c)
+
+// Every host-API guard reads the flags of contexts[service], where `service` is the slot number stored in the Lua
+// state.  Slots BlockFactory / ChainService hold the context of the transaction being executed (Call / Create
+// store it there without looking); a query gets its slot from allocContextSlot.  "A read-only context is identified
+// by its own slot" therefore rests on the slot arithmetic of allocContextSlot never producing a reserved slot.
+// HSlotFacts: that arithmetic translated (Lean text + an evaluator for the harness), the VM-service constants, the
+// initial value of lastQueryIndex, every write of contexts[…] and of vmContext.service.
+type HSlotFacts struct {
+	Consts     [][2]string // (name, value) of the const group of BlockFactory / ChainService / MaxVmService
+	StepLean   string      // Lean expression over `maxContext index` for one step of the slot scan ("" = not translatable)
+	StepSrc    string      // the Go statements it was translated from (one line)
+	StepWhy    string      // why it could not be translated
+	InitLean   string      // initial value of lastQueryIndex
+	SlotWrites [][3]string // (function, index expression, value) of every assignment to contexts[…] / contexts
+	SvcWrites  [][2]string // (function, value) of every assignment to vmContext.service (incl. composite literals)
+	LastWrites [][2]string // (function, value) of every assignment to lastQueryIndex outside init()
+	step       []ast.Stmt
+	fset       *token.FileSet
+	constVals  map[string]int64
+}
+
+func hxSlotFacts(x *hxExtractor, dir string) *HSlotFacts {
+	sf := &HSlotFacts{fset: x.fset, constVals: map[string]int64{}}
+	// constants: the const group that declares ChainService (contract.go; parsed here, it is not an analysed file)
+	if af, err := parser.ParseFile(token.NewFileSet(), filepath.Join(dir, "contract.go"), nil, parser.SkipObjectResolution); err == nil {
+		for _, d := range af.Decls {
+			gd, ok := d.(*ast.GenDecl)
+			if !ok || gd.Tok != token.CONST {
+				continue
+			}
+			has := false
+			for _, sp := range gd.Specs {
+				for _, n := range sp.(*ast.ValueSpec).Names {
+					if n.Name == "ChainService" {
+						has = true
+					}
+				}
+			}
+			if !has {
+				continue
+			}
+			iotaForm := false
+			for i, sp := range gd.Specs {
+				vs := sp.(*ast.ValueSpec)
+				val := int64(-1)
+				switch {
+				case len(vs.Values) == 1 && hxExprString(x.fset, vs.Values[0]) == "iota":
+					iotaForm = true
+					val = int64(i)
+				case len(vs.Values) == 0 && iotaForm:
+					val = int64(i)
+				case len(vs.Values) == 1:
+					if l, ok := vs.Values[0].(*ast.BasicLit); ok {
+						val, _ = strconv.ParseInt(l.Value, 0, 64)
+					}
+					iotaForm = false
+				}
+				for _, n := range vs.Names {
+					sf.Consts = append(sf.Consts, [2]string{n.Name, fmt.Sprint(val)})
+					sf.constVals[n.Name] = val
+				}
+			}
+		}
+	}
+	// init() functions (several per package; the function table keeps one): the initial value of lastQueryIndex
+	for _, fn := range x.prog.Facts.ParsedFiles {
+		af, err := parser.ParseFile(token.NewFileSet(), filepath.Join(dir, fn), nil, parser.SkipObjectResolution)
+		if err != nil {
+			continue
+		}
+		for _, d := range af.Decls {
+			fd, ok := d.(*ast.FuncDecl)
+			if !ok || fd.Recv != nil || fd.Name.Name != "init" || fd.Body == nil {
+				continue
+			}
+			ast.Inspect(fd.Body, func(nd ast.Node) bool {
+				if as, ok := nd.(*ast.AssignStmt); ok && len(as.Lhs) == 1 && len(as.Rhs) == 1 {
+					if id, ok := as.Lhs[0].(*ast.Ident); ok && id.Name == "lastQueryIndex" {
+						sf.InitLean, _ = sf.lean(as.Rhs[0])
+					}
+				}
+				return true
+			})
+		}
+	}
+	var names []string
+	for n := range x.pkg.funcs {
+		names = append(names, n)
+	}
+	sort.Strings(names)
+	for _, n := range names {
+		fd := x.pkg.funcs[n]
+		if fd.Body == nil {
+			continue
+		}
+		ast.Inspect(fd.Body, func(nd ast.Node) bool {
+			switch s := nd.(type) {
+			case *ast.AssignStmt:
+				for i, l := range s.Lhs {
+					rhs := "?"
+					if len(s.Lhs) == len(s.Rhs) {
+						rhs = hxExprString(x.fset, s.Rhs[i])
+					}
+					switch t := l.(type) {
+					case *ast.IndexExpr:
+						if id, ok := t.X.(*ast.Ident); ok && id.Name == "contexts" {
+							sf.SlotWrites = append(sf.SlotWrites, [3]string{n, hxExprString(x.fset, t.Index), rhs})
+						}
+					case *ast.Ident:
+						if t.Name == "contexts" {
+							sf.SlotWrites = append(sf.SlotWrites, [3]string{n, "*", rhs})
+						}
+						if t.Name == "lastQueryIndex" && n != "init" {
+							sf.LastWrites = append(sf.LastWrites, [2]string{n, rhs})
+						}
+					case *ast.SelectorExpr:
+						if t.Sel.Name == "service" {
+							sf.SvcWrites = append(sf.SvcWrites, [2]string{n, rhs})
+						}
+					}
+				}
+			case *ast.CompositeLit:
+				if hxBaseName(s.Type) == "vmContext" {
+					for _, el := range s.Elts {
+						if kv, ok := el.(*ast.KeyValueExpr); ok {
+							if id, ok := kv.Key.(*ast.Ident); ok && id.Name == "service" {
+								sf.SvcWrites = append(sf.SvcWrites, [2]string{n, hxExprString(x.fset, kv.Value)})
+							}
+						}
+					}
+				}
+			}
+			return true
+		})
+	}
+	// the step of the slot scan: in allocContextSlot, the statements of the `for` body in front of the first test of contexts[…]
+	fd := x.pkg.funcs["allocContextSlot"]
+	if fd == nil || fd.Body == nil {
+		sf.StepWhy = "allocContextSlot not found"
+		return sf
+	}
+	var loop *ast.ForStmt
+	for _, st := range fd.Body.List {
+		if f, ok := st.(*ast.ForStmt); ok {
+			loop = f
+			break
+		}
+	}
+	if loop == nil || loop.Init != nil || loop.Cond != nil || loop.Post != nil {
+		sf.StepWhy = "allocContextSlot has no plain `for { … }` scan"
+		return sf
+	}
+	for _, st := range loop.Body.List {
+		if is, ok := st.(*ast.IfStmt); ok && strings.Contains(hxExprString(x.fset, is.Cond), "contexts[") {
+			break
+		}
+		sf.step = append(sf.step, st)
+	}
+	var src []string
+	for _, st := range sf.step {
+		src = append(src, hxExprString(x.fset, st))
+	}
+	sf.StepSrc = strings.Join(src, "; ")
+	val, why := sf.leanBlock(sf.step)
+	if why != "" {
+		sf.StepWhy = why
+		return sf
+	}
+	sf.StepLean = val
+	return sf
+}
+
+// lean: integer / boolean expression over index, maxContext, the service constants and literals.
+func (sf *HSlotFacts) lean(e ast.Expr) (string, string) {
+	switch v := e.(type) {
+	case *ast.ParenExpr:
+		return sf.lean(v.X)
+	case *ast.BasicLit:
+		if v.Kind == token.INT {
+			return v.Value, ""
+		}
+	case *ast.Ident:
+		if v.Name == "index" || v.Name == "maxContext" {
+			return v.Name, ""
+		}
+		if _, ok := sf.constVals[v.Name]; ok {
+			return v.Name, ""
+		}
+		if v.Name == "startIndex" || v.Name == "lastQueryIndex" {
+			return "", "the step depends on " + v.Name
+		}
+	case *ast.CallExpr:
+		if len(v.Args) == 1 {
+			switch hxPlain(v.Fun) {
+			case "int", "C.int", "int32", "int64":
+				return sf.lean(v.Args[0])
+			}
+		}
+	case *ast.UnaryExpr:
+		a, why := sf.lean(v.X)
+		if why != "" {
+			return "", why
+		}
+		switch v.Op {
+		case token.NOT:
+			return "(!" + a + ")", ""
+		case token.SUB:
+			return "(-" + a + ")", ""
+		}
+	case *ast.BinaryExpr:
+		a, why := sf.lean(v.X)
+		if why != "" {
+			return "", why
+		}
+		b, why := sf.lean(v.Y)
+		if why != "" {
+			return "", why
+		}
+		switch v.Op {
+		case token.ADD, token.SUB, token.MUL:
+			return "(" + a + " " + v.Op.String() + " " + b + ")", ""
+		case token.QUO:
+			return "(Int.tdiv " + a + " " + b + ")", ""
+		case token.REM:
+			return "(Int.tmod " + a + " " + b + ")", ""
+		case token.EQL:
+			return "(" + a + " = " + b + ")", ""
+		case token.NEQ:
+			return "(" + a + " ≠ " + b + ")", ""
+		case token.LSS, token.GTR:
+			return "(" + a + " " + v.Op.String() + " " + b + ")", ""
+		case token.LEQ:
+			return "(" + a + " ≤ " + b + ")", ""
+		case token.GEQ:
+			return "(" + a + " ≥ " + b + ")", ""
+		case token.LAND:
+			return "(" + a + " ∧ " + b + ")", ""
+		case token.LOR:
+			return "(" + a + " ∨ " + b + ")", ""
+		}
+	}
+	return "", "expression outside the subset: " + hxExprString(sf.fset, e)
+}
+
+// leanBlock: the value of `index` after the statements (which may assign only `index`).
+func (sf *HSlotFacts) leanBlock(l []ast.Stmt) (string, string) {
+	if len(l) == 0 {
+		return "index", ""
+	}
+	rest, why := sf.leanBlock(l[1:])
+	if why != "" {
+		return "", why
+	}
+	bind := func(e string) string {
+		if rest == "index" {
+			return e
+		}
+		return "(let index := " + e + "; " + rest + ")"
+	}
+	switch s := l[0].(type) {
+	case *ast.IncDecStmt:
+		if id, ok := s.X.(*ast.Ident); ok && id.Name == "index" {
+			if s.Tok == token.INC {
+				return bind("(index + 1)"), ""
+			}
+			return bind("(index - 1)"), ""
+		}
+	case *ast.AssignStmt:
+		if len(s.Lhs) == 1 && len(s.Rhs) == 1 {
+			if id, ok := s.Lhs[0].(*ast.Ident); ok && id.Name == "index" {
+				e, why := sf.lean(s.Rhs[0])
+				if why != "" {
+					return "", why
+				}
+				switch s.Tok {
+				case token.ASSIGN:
+					return bind(e), ""
+				case token.ADD_ASSIGN:
+					return bind("(index + " + e + ")"), ""
+				case token.SUB_ASSIGN:
+					return bind("(index - " + e + ")"), ""
+				case token.REM_ASSIGN:
+					return bind("(Int.tmod index " + e + ")"), ""
+				}
+			}
+		}
+	case *ast.IfStmt:
+		if s.Init == nil {
+			c, why := sf.lean(s.Cond)
+			if why != "" {
+				return "", why
+			}
+			t, why := sf.leanBlock(s.Body.List)
+			if why != "" {
+				return "", why
+			}
+			e := "index"
+			switch el := s.Else.(type) {
+			case *ast.BlockStmt:
+				if e, why = sf.leanBlock(el.List); why != "" {
+					return "", why
+				}
+			case *ast.IfStmt:
+				if e, why = sf.leanBlock([]ast.Stmt{el}); why != "" {
+					return "", why
+				}
+			}
+			return bind("(if " + c + " then " + t + " else " + e + ")"), ""
+		}
+	case *ast.EmptyStmt:
+		return rest, ""
+	}
+	return "", "statement outside the subset: " + hxExprString(sf.fset, l[0])
+}
+
+// Eval: one step of the scan on concrete numbers (Go semantics), for the harness; ok=false if not evaluable.
+func (sf *HSlotFacts) Eval(maxContext, index int64) (int64, bool) {
+	if sf.StepLean == "" {
+		return 0, false
+	}
+	env := map[string]int64{"index": index, "maxContext": maxContext}
+	for k, v := range sf.constVals {
+		env[k] = v
+	}
+	ok := sf.exec(sf.step, env)
+	return env["index"], ok
+}
+
+func (sf *HSlotFacts) exec(l []ast.Stmt, env map[string]int64) bool {
+	for _, st := range l {
+		switch s := st.(type) {
+		case *ast.IncDecStmt:
+			if s.Tok == token.INC {
+				env["index"]++
+			} else {
+				env["index"]--
+			}
+		case *ast.AssignStmt:
+			v, ok := sf.eval(s.Rhs[0], env)
+			if !ok {
+				return false
+			}
+			switch s.Tok {
+			case token.ASSIGN:
+				env["index"] = v
+			case token.ADD_ASSIGN:
+				env["index"] += v
+			case token.SUB_ASSIGN:
+				env["index"] -= v
+			case token.REM_ASSIGN:
+				if v == 0 {
+					return false
+				}
+				env["index"] %= v
+			}
+		case *ast.IfStmt:
+			c, ok := sf.eval(s.Cond, env)
+			if !ok {
+				return false
+			}
+			if c != 0 {
+				if !sf.exec(s.Body.List, env) {
+					return false
+				}
+			} else if s.Else != nil {
+				var el []ast.Stmt
+				switch e := s.Else.(type) {
+				case *ast.BlockStmt:
+					el = e.List
+				case *ast.IfStmt:
+					el = []ast.Stmt{e}
+				}
+				if !sf.exec(el, env) {
+					return false
+				}
+			}
+		}
+	}
+	return true
+}
+
+func (sf *HSlotFacts) eval(e ast.Expr, env map[string]int64) (int64, bool) {
+	b2i := func(b bool) int64 {
+		if b {
+			return 1
+		}
+		return 0
+	}
+	switch v := e.(type) {
+	case *ast.ParenExpr:
+		return sf.eval(v.X, env)
+	case *ast.BasicLit:
+		n, err := strconv.ParseInt(v.Value, 0, 64)
+		return n, err == nil
+	case *ast.Ident:
+		n, ok := env[v.Name]
+		return n, ok
+	case *ast.CallExpr:
+		if len(v.Args) == 1 {
+			return sf.eval(v.Args[0], env)
+		}
+	case *ast.UnaryExpr:
+		a, ok := sf.eval(v.X, env)
+		if !ok {
+			return 0, false
+		}
+		if v.Op == token.NOT {
+			return b2i(a == 0), true
+		}
+		return -a, true
+	case *ast.BinaryExpr:
+		a, ok := sf.eval(v.X, env)
+		if !ok {
+			return 0, false
+		}
+		b, ok := sf.eval(v.Y, env)
+		if !ok {
+			return 0, false
+		}
+		switch v.Op {
+		case token.ADD:
+			return a + b, true
+		case token.SUB:
+			return a - b, true
+		case token.MUL:
+			return a * b, true
+		case token.QUO:
+			if b == 0 {
+				return 0, false
+			}
+			return a / b, true
+		case token.REM:
+			if b == 0 {
+				return 0, false
+			}
+			return a % b, true
+		case token.EQL:
+			return b2i(a == b), true
+		case token.NEQ:
+			return b2i(a != b), true
+		case token.LSS:
+			return b2i(a < b), true
+		case token.GTR:
+			return b2i(a > b), true
+		case token.LEQ:
+			return b2i(a <= b), true
+		case token.GEQ:
+			return b2i(a >= b), true
+		case token.LAND:
+			return b2i(a != 0 && b != 0), true
+		case token.LOR:
+			return b2i(a != 0 || b != 0), true
+		}
+	}
+	return 0, false
 }
